@@ -466,6 +466,18 @@ func (c *Ctl) Run(o Options, driversDone func() bool) Result {
 				break
 			}
 		}
+		if len(c.gated) == 0 && len(c.timed) > 0 {
+			// a goroutine that left its timed wait by exiting is no longer a timed waiter
+			alive := map[int64]bool{}
+			for _, g := range snap {
+				alive[g.Gid] = true
+			}
+			for gid := range c.timed {
+				if !alive[gid] {
+					delete(c.timed, gid)
+				}
+			}
+		}
 		if len(c.gated) == 0 {
 			if len(c.timed) > 0 && idleSpins < 200000 {
 				idleSpins++
